@@ -18,6 +18,10 @@ import (
 //   retry        the first nerr produce requests answer NotLeaderForPartition: retry levels, back-off
 //                (25 ms), metadata refresh (leader moves to broker 1 when there are two)
 //   unreachable  after the first answer the leader goes away: connection errors, retries, failures
+//   slowerr      every produce request fails with a non-retriable error, the first answer is held until Close
+//                was invoked, and from then on the application receives slowly (30 ms between receives,
+//                ChannelBufferSize 0): the failing messages' errors are still being handed over while
+//                shutdown() waits - Errors() must not be closed before the last of them was delivered
 //
 // parameters: nmsg (messages the application tries to send), rmax (Producer.Retry.Max), flush
 // (Producer.Flush.Messages), buf (ChannelBufferSize), brokers (1|2), nerr.
@@ -79,6 +83,11 @@ func (s *prodScript) handler(b *sarama.MockBroker) func(string, interface{}) int
 					atomic.StoreInt32(&s.moved, 1)
 					return s.produceAnswer(req, sarama.ErrNotLeaderForPartition)
 				}
+			case "slowerr":
+				if atomic.CompareAndSwapInt32(&s.heldOnce, 0, 1) {
+					return sarama.VerifC12Hold{Inner: s.produceAnswer(req, sarama.ErrMessageSizeTooLarge), Gate: s.rc.afterInvoked(10 * time.Millisecond)}
+				}
+				return s.produceAnswer(req, sarama.ErrMessageSizeTooLarge)
 			case "unreachable":
 				if n >= 2 {
 					return sarama.VerifC12Drop{}
@@ -137,6 +146,9 @@ func runProducer(spec Spec) Result {
 			var in chan<- *sarama.ProducerMessage
 			if sent < nmsg && trig != nil {
 				in = input
+			}
+			if trig == nil && spec.Scen == "slowerr" {
+				time.Sleep(30 * time.Millisecond) // a slow (not a stopped) reader
 			}
 			select {
 			case in <- &sarama.ProducerMessage{Topic: topic, Partition: 0, Value: sarama.StringEncoder("v")}:
